@@ -1494,6 +1494,11 @@ func genClose(r *rand.Rand, id string, size int, total int) []string {
 		}
 	}
 	second := g.pick(2) == 0
+	if !second {
+		// one database: now and then through the pubsubcoreapi adapter (its subscriptions of the
+		// underlying pubsub must be closed with the store: the census at the end counts them)
+		g.lines[0] += g.psFlag()
+	}
 	if second {
 		g.add("opendb kind=log acl=%s peers=%s", joinInts(peers), joinInts(peers))
 		g.add("add %d %s", p, hx(g.value()))
